@@ -74,6 +74,7 @@ func (c *Conn) CloseRead(ctx context.Context) context.Context {
 	c.closeReadCtx = ctx
 	c.closeReadDone = make(chan struct{})
 	c.closeReadMu.Unlock()
+	simYield("closeread.registered", c)
 
 	go func() {
 		defer close(c.closeReadDone)
